@@ -92,6 +92,57 @@ thread_local! {
     static LAST_PANIC: RefCell<Option<String>> = const { RefCell::new(None) };
 }
 
+thread_local! {
+    static LOG_NO_SOLUTION: std::cell::Cell<u64> = const { std::cell::Cell::new(0) };
+    static LOG_ITER_LIMIT: std::cell::Cell<u64> = const { std::cell::Cell::new(0) };
+    static LOG_FIXED_BREAK: std::cell::Cell<u64> = const { std::cell::Cell::new(0) };
+}
+
+/// Observes the three diagnostics the formatter logs when it falls back: "No solution found",
+/// "Iteration limit reached", "Fixed missing line break".
+struct Observer;
+impl log::Log for Observer {
+    fn enabled(&self, m: &log::Metadata) -> bool {
+        m.level() <= log::Level::Warn
+    }
+    fn log(&self, rec: &log::Record) {
+        if rec.level() > log::Level::Warn {
+            return;
+        }
+        let msg = format!("{}", rec.args());
+        if msg.starts_with("No solution found") {
+            LOG_NO_SOLUTION.with(|c| c.set(c.get() + 1));
+        } else if msg.starts_with("Iteration limit reached") {
+            LOG_ITER_LIMIT.with(|c| c.set(c.get() + 1));
+        } else if msg.starts_with("Fixed missing line break") {
+            LOG_FIXED_BREAK.with(|c| c.set(c.get() + 1));
+        }
+    }
+    fn flush(&self) {}
+}
+
+pub fn install_log_observer() {
+    static OBS: Observer = Observer;
+    let _ = log::set_logger(&OBS);
+    log::set_max_level(log::LevelFilter::Warn);
+}
+
+#[derive(Debug, Clone, Copy, Default, PartialEq)]
+pub struct Fallbacks {
+    pub no_solution: u64,
+    pub iteration_limit: u64,
+    pub fixed_break: u64,
+}
+
+/// fallbacks logged since the last call
+pub fn take_fallbacks() -> Fallbacks {
+    Fallbacks {
+        no_solution: LOG_NO_SOLUTION.with(|c| c.replace(0)),
+        iteration_limit: LOG_ITER_LIMIT.with(|c| c.replace(0)),
+        fixed_break: LOG_FIXED_BREAK.with(|c| c.replace(0)),
+    }
+}
+
 pub fn install_panic_hook() {
     std::panic::set_hook(Box::new(|info| {
         let loc = info
@@ -130,6 +181,8 @@ pub struct Ctx {
     formatters: HashMap<Cfg, Formatter>,
     pub stats: Stats,
     nontrivial_marked: bool,
+    /// fall-backs logged by the formatter during the current (sub-)case
+    pub fb: Fallbacks,
 }
 
 impl Ctx {
@@ -141,6 +194,7 @@ impl Ctx {
             formatters: HashMap::new(),
             stats: Stats::default(),
             nontrivial_marked: false,
+            fb: Fallbacks::default(),
         }
     }
     pub fn formatter(&mut self, cfg: &Cfg) -> &Formatter {
@@ -148,7 +202,23 @@ impl Ctx {
     }
     pub fn fmt(&mut self, cfg: &Cfg, input: &str) -> String {
         self.stats.formats += 1;
-        self.formatter(cfg).format(input, FileOptions::new())
+        let out = self.formatter(cfg).format(input, FileOptions::new());
+        let f = take_fallbacks();
+        self.fb.no_solution += f.no_solution;
+        self.fb.iteration_limit += f.iteration_limit;
+        self.fb.fixed_break += f.fixed_break;
+        out
+    }
+    /// format and report which fall-backs the formatter logged while doing so
+    pub fn fmt_obs(&mut self, cfg: &Cfg, input: &str) -> (String, Fallbacks) {
+        let before = self.fb;
+        let out = self.fmt(cfg, input);
+        let f = Fallbacks {
+            no_solution: self.fb.no_solution - before.no_solution,
+            iteration_limit: self.fb.iteration_limit - before.iteration_limit,
+            fixed_break: self.fb.fixed_break - before.fixed_break,
+        };
+        (out, f)
     }
     pub fn fmt_cursors(&mut self, cfg: &Cfg, input: &str, cursors: &mut [Cursor]) -> String {
         self.stats.formats += 1;
@@ -161,6 +231,12 @@ impl Ctx {
     pub fn count_n(&mut self, label: &str, n: u64) {
         *self.stats.counters.entry(label.to_string()).or_default() += n;
     }
+    /// a further evaluation inside the current case (a case may bundle several sub-cases)
+    pub fn sub_eval(&mut self) {
+        self.stats.evaluations += 1;
+        self.nontrivial_marked = false;
+        self.fb = Fallbacks::default();
+    }
     pub fn nontrivial(&mut self) {
         if !self.nontrivial_marked {
             self.nontrivial_marked = true;
@@ -168,6 +244,15 @@ impl Ctx {
         }
     }
     pub fn fail(&mut self, property: &str, signature: &str, detail: String, case: Value) {
+        // the mechanism is part of the signature: a line the optimising formatter gave up on is
+        // left as the input had it, which explains a whole class of downstream effects
+        let signature = &if self.fb.no_solution > 0 {
+            format!("{signature}:no-wrapping-solution")
+        } else if self.fb.iteration_limit > 0 {
+            format!("{signature}:iteration-limit-reached")
+        } else {
+            signature.to_string()
+        };
         self.stats.violation_count += 1;
         *self
             .stats
@@ -199,6 +284,8 @@ impl Ctx {
     fn begin_case(&mut self, idx: u64) {
         self.idx = idx;
         self.nontrivial_marked = false;
+        self.fb = Fallbacks::default();
+        let _ = take_fallbacks();
         self.stats.evaluations += 1;
     }
 }
@@ -238,6 +325,7 @@ pub struct WorkerArgs {
 
 pub fn worker_main(family: &dyn Family, a: WorkerArgs) -> ! {
     install_panic_hook();
+    install_log_observer();
     let horizon = Duration::from_millis(
         std::env::var("VERIF_HORIZON_MS")
             .ok()
